@@ -3,7 +3,8 @@
 // every needle's AppendAtNs and LastModified and the data file's mtime back by the given
 // minutes (rewriting the data file with the real needle reader/writer) and reopens it:
 // for the code this is indistinguishable from the clock having advanced. After every op
-// every key is read. Mode "sec2ttl": enumerates operation.StorageOption.TtlString().
+// every key is read. Mode "sec2ttl": enumerates operation.StorageOption.TtlString() (kept for replaying
+// old traces; the check now runs mode "asg", see asg.go: ToAssignRequests / Assign / end to end).
 package main
 
 import (
@@ -103,6 +104,10 @@ func main() {
 	o := tr.ParseFlags()
 	w := tr.NewWriter(o.Out)
 	defer w.Close()
+	if o.Mode == "asg" {
+		runAsg(o, w)
+		return
+	}
 	if o.Mode == "sec2ttl" {
 		w.Emit(tr.Ev{"ev": "reset", "vttl": ""})
 		emit := func(sec int32) {
